@@ -299,6 +299,17 @@ package slip
 //@   ensures nil: val == nil ==> obj == nil
 
 // ---------------------------------------------------------------------------
+// C11 / C10: daemon order of a combined method. Before daemons run in
+// combination order (most specific first), then the first primary, then the
+// after daemons in the reverse order; the bound-call variant must do the same.
+//@ func slip.(*Method).InnerCall
+//@   property C11 C10
+//@   on-call Call#1 before-daemon-of-this-combination: $arg0 == s && $arg1 == args
+//@   on-call Call#2 primary-of-this-combination: $arg0 == s && $arg1 == args
+//@   on-call Call#3 after-daemon-of-this-combination: $arg0 == s && $arg1 == args && c == m.Combinations[i]
+//@   loop 0<=i: decreases after-daemons-in-reverse: i
+
+// ---------------------------------------------------------------------------
 // C19: load forms. Building a load form reads the object only.
 //@ pure-method LoadFormer.LoadForm
 
